@@ -15,7 +15,7 @@ RULE = ('single-symbol scripted sessions (trading timeframe 1m..1h, optional lar
         'non-trivial = precondition holds and >= 3 fills.')
 ASSUMPTIONS = ['precondition evaluated on aligned trading-timeframe windows (a superset of every fast-mode chunk)',
                'numeric comparison rel 1e-9']
-MIN_OBS = {'pairs_judged': 100, 'pairs_judged_ge3_fills': 60, 'fills_compared': 500, 'trades_compared': 150}
+MIN_OBS = {'pairs_judged': 100, 'pairs_judged_ge3_fills': 60, 'fills_compared': 500, 'trades_compared': 150, 'pairs_judged_with_callback_market_orders': 40}
 
 
 def _fills(events):
@@ -66,11 +66,11 @@ def run_job(job):
     sc['entry_dist'] = wide / 2
     sc['update_kinds'] = [x for x in sc['update_kinds'] if x != 'near_tp'] or ['trail_sl']
     sc['observe'] = 'light'
-    if job['i'] % 4 == 2 and spec['config']['type'] == 'futures':
+    if job['i'] % 4 in (0, 2) and spec['config']['type'] == 'futures':
         # a resting entry whose fill callback scales in with a MARKET order (priced from the position's mark price at the fill)
         sc['entry'] = rng.choice(['limit', 'stop'])
         sc['on_open_add'] = 0.5
-        sc['on_increased'] = 'retarget'
+        sc['on_increased'] = 'retarget' if job['i'] % 4 == 2 else 'retarget_price'
         sc['p_open_liquidate'] = None
     if job['i'] % 2 == 1:
         sc['decide_on_ohl'] = True     # a strategy that reads open/high/low of its trading candles
@@ -98,6 +98,8 @@ def run_job(job):
             cnt['pairs_normal_run_aborted:' + a['error']['type']] = 1
         return {'viol': [], 'cnt': cnt, 'sigs': []}
     cnt['pairs_judged'] = 1
+    if sc.get('on_open_add') and any(e['k'] == 'submit' and e['type'] == 'MARKET' and e.get('in_match') for e in a['events']):
+        cnt['pairs_judged_with_callback_market_orders'] = 1
     cnt[f'judged_tf:{tf}'] = 1
     if len(fa) >= 3:
         cnt['pairs_judged_ge3_fills'] = 1
@@ -178,5 +180,5 @@ def _final_balance(events):
 
 def make_jobs(tier, seed):
     rng = random.Random(120000 + seed)
-    n = 420 if tier == 'quick' else 30000
+    n = 520 if tier == 'quick' else 30000
     return [{'kind': 'pair', 'seed': rng.randrange(1 << 30), 'i': i, 'odd_length': i % 6 == 5} for i in range(n)]
